@@ -23,6 +23,10 @@ def run(R):
     import vlib
     cases, r = R.mc("MC_Optim", "MC_Optim_%s.cfg" % R.tier, workers=8, timeout=3000)
     R.replay(cases)
+    # vacuity control: the one-sided family must reach an exact state with a zero gradient component after step 1
+    import vlib
+    if not any(e.get("zero_grad") and e.get("k", 0) >= 2 for e in vlib.read_ndjson(cases)):
+        raise vlib.ToolError("MC_Optim emitted no exact Adam state with a zero gradient component")
     cases2, r = R.mc("MC_OptimLM", "MC_OptimLM_%s.cfg" % R.tier, workers=8, timeout=3000)
     R.replay(cases2)
     n = 60 if R.tier == "quick" else 600
